@@ -4,6 +4,32 @@ import json, os
 PROPS = [json.loads(l)['id'] for l in open('/verif/properties.jsonl')]
 
 CLAIMED = {
+ 'C01': dict(
+   category='proof',
+   text=('PARTIAL proof + exact correspondence. Proved in Coq for the L-block model (all ranks, sector sets, dimensions, also sectors present in only '
+         'one operand): scalar multiples, negation, element-wise zero-preserving maps, sums, differences and linear combinations commute with the '
+         'dense (sector, position) semantics, and block access / dense value agree (zero outside stored blocks). The model is executed (extracted) '
+         'on the exported blocks of the real operands and must reproduce the real result blocks exactly. NOT proved yet: transposition, tensordot, '
+         'trace, vdot, broadcast, masks, diag, legs, ncon -- for those every generated case (integer-valued data, so float64 is exact) is compared '
+         'with the same NumPy operation on to_numpy() of the operands through union legs (the property verbatim), incl. legs/signature/charge.'),
+   design_ref='DESIGN.md section 6 C01',
+   note=('Trusted: Coq kernel, no axioms; hand-written L-block model tied by correspondence (blocks in/blocks out) for the linear operations only; '
+         'for all other operations this check is exact differential testing against NumPy (not a theorem) -- stated as such. Structured (sector, '
+         'position) indices, not flat NumPy offsets, are what the theorems speak about; the flat embedding is exercised by the NumPy comparison.'),
+   technique='Coq proof (linear structure of the block model) + exact NumPy correspondence on integer-valued data for all operations'),
+ 'C02': dict(
+   category='proof',
+   text=('Charge conservation is proved in Coq for every symmetry descriptor with positive moduli and all integer charges: selection rule of '
+         'tensordot results with n = n_a + n_b, conj (n -> -n), transposition, trace, hard fusion (grouping), add_leg; and by induction for ALL finite '
+         'programs (trees of conj/transposition generators/trace/add_leg/tensordot over well-formed leaves). The executable predicate wf_struct '
+         '(selection rule, unique sorted blocks, per-leg dimension consistency, storage contiguity and size, diagonal constraints, fusion/transposition '
+         'bookkeeping) is proved to imply the selection rule, block uniqueness, zero-outside-sectors and storage consistency, and is RUN (extracted) on the '
+         'exported structure of every result, operand and intermediate of generated operation cases and operation sequences.'),
+   design_ref='DESIGN.md section 6 C02',
+   note=('Trusted: Coq kernel, no axioms; sym translator (fusion rule used by wf_struct is the generated one); exporter tools/tcheck.py export_struct; '
+         'self-test each run (deliberately corrupted structures must be rejected). wf preservation is established per produced tensor at run time, not '
+         'proved for the storage-level _meta_* functions; values inside svd/qr factors are not constrained by wf.'),
+   technique='Coq proof (charge algebra, induction over programs) + extracted well-formedness predicate run on every produced tensor'),
  'C13': dict(
    category='proof',
    text=('For ANY spectrum over any number of sectors, any combination of the four limits and any valid argsort: per-sector and total counts '
